@@ -4,12 +4,12 @@ from evalutil import *
 
 ID = "C05"
 LEVEL = "proof"
-MODULES = ["H3Proofs.Props.C05", "H3Proofs.Props.C05Neighbor", "H3Proofs.Props.C05Bfs", "H3Proofs.Props.C05Symm", "H3Proofs.Props.C05Array", "H3Proofs.Props.C05Mode", "H3Proofs.Props.C05Valid", "H3Proofs.Props.C05Valid2"]
+MODULES = ["H3Proofs.Props.C05", "H3Proofs.Props.C05Neighbor", "H3Proofs.Props.C05Bfs", "H3Proofs.Props.C05Symm", "H3Proofs.Props.C05Array", "H3Proofs.Props.C05Mode", "H3Proofs.Props.C05Valid", "H3Proofs.Props.C05Valid2", "H3Proofs.Props.C05Pent", "H3Proofs.Props.C05Res1a", "H3Proofs.Props.C05Res1b"]
 THEOREMS = "auto"
 ASSUMPTIONS = ["hand-written model of h3NeighborRotations, _gridDiskDistancesInternal (array-faithful), the unsafe "
                "ring walks, gridRingUnsafe and areNeighborCells, tied to the code by exact correspondence (slot "
                "layout and ring order included)"]
-NOT_PROVED = ["symmetry / distinctness / count (six, five) of neighbours inside and next to the 12 pentagon base cells and across base-cell boundaries (empirical rotation tables): theorems only for steps that stay inside a hexagon base cell, at every resolution (C05Symm); elsewhere exercised by correspondence + evaluator",
+NOT_PROVED = ["symmetry / distinctness / count (six) of neighbours for steps that cross a base-cell boundary or run inside a pentagon base cell at resolutions >= 2 (empirical rotation tables): unbounded theorems exist for steps that stay inside a hexagon base cell, at every resolution (C05Symm), for the twelve pentagons themselves at every resolution (C05Pent: exactly five distinct neighbours, K step = E_PENTAGON), and complete resolutions 0 and 1 are decided in the kernel (C05Pent.res0_*, C05Res1a/b: family results); elsewhere correspondence + evaluator",
               "termination-with-success of the safe disk (that its probing never reports E_FAILED): the BFS theorem is partial correctness (whenever gridDiskDistancesSafe returns, its buffers are the BFS disk)",
               "the unsafe ring walks (gridDiskDistancesUnsafe, gridRingUnsafe) = the disk in ring order whenever they succeed: correspondence + evaluator only (finding F7 lives here)"]
 EXPLANATION = ("every successful neighbour step, from any cell, in any direction, at any resolution, through every pentagon special case and across base-cell boundaries, returns a valid cell of the same resolution (C05Valid2.h3NeighborRotations_valid, full layout incl. the pentagon clause); the array-faithful gridDiskDistancesSafe (open-addressing slots, in-place distance updates) is breadth-first search over that neighbour function for every origin with the cell mode, exact distances and one slot per cell (C05Mode.gridDiskDistancesSafe_bfs, partial correctness); everything it writes is a valid cell of the origin's resolution (walk_valid); size formula / validation / base-cell table theorems; Theorem A (digit tables = aperture-7 addition), uniqueness of digit expansions, symmetric and pairwise distinct neighbours inside hexagon base cells at every resolution; the safe disk algorithm is BFS for any neighbour function; correspondence of "
